@@ -33,6 +33,7 @@ KIDS = [0, 1, 23, 24, 255, 256, 65535, 65536, 2**31 - 1, 2**31, 2**32 - 1, 0x400
 # key ids whose DECIMAL spelling has eight digits / looks like hex digits / has a leading zero form: the command line spells ids in decimal or 0x-hex
 CLI_KIDS = [16777216, 12345678, 99999999, 10000000, 40022000, 11, 100, 4294967295, 0]
 SIZES = [0, 1, 15, 16, 17, 31, 32, 4096, 65535, 65536, 65537, 131072]
+HUGE_SIZES = [8 * 1048576 - 1, 8 * 1048576, 16 * 1048576 + 3]  # images of several MiB (block-wise processing of large images)
 BIG_SIZES = [1048575, 1048576, 1048577, 2 * 1048576 + 5]  # around one MiB (chunked processing), judged once per digest algorithm
 FILES = ["encrypted_content.bin", "suit_encryption_info.bin", "plain_text_digest.bin", "plain_text_size.txt"]
 
@@ -179,6 +180,8 @@ def run_encrypt(step, d, outdir, key, route, holder=None):
     if step["sub"] == "encrypt":
         pt = shaped_plaintext(step["size"], step["salt"], step.get("shape", "rand"))
         fw = os.path.join(d, "fw.bin")
+        if step.get("inplace") and not fifo and route != "lib":
+            fw = os.path.join(outdir, "encrypted_content.bin")  # the input lies in the output directory, under the name of an artifact
         _input_file(fw, pt, fifo)
         kms, used_key = sut.KMS_SCRIPT(), key
         if step.get("kms_copy") is not None:
@@ -221,6 +224,9 @@ def run_encrypt(step, d, outdir, key, route, holder=None):
     if step.get("ek_first") is not None and ek:
         ek = bytes([step["ek_first"]]) + ek[1:]  # wrapped keys are arbitrary bytes: also ones that begin like a CBOR null / map / string
     ef, ekf = os.path.join(d, "ef.bin"), os.path.join(d, "ek.bin")
+    if step.get("inplace") and not fifo and route != "lib":
+        # an externally produced blob converted in place: the inputs lie in the output directory under the artifact names
+        ef, ekf = os.path.join(outdir, "encrypted_content.bin"), os.path.join(outdir, "suit_encryption_info.bin")
     _input_file(ef, blob, fifo)
     _input_file(ekf, ek, fifo)
     if route == "lib":
@@ -370,6 +376,8 @@ def judge(case, acc, ctx):
                 classes.append("reused-output-dir")
             if step.get("fifo") and route != "lib":
                 classes.append("input-through-named-pipe")
+            elif step.get("inplace") and route != "lib":
+                classes.append("input-in-output-directory")
             if step.get("kms_copy") is not None:
                 classes.append("kms-script-copy" + (":after-another-copy" if any(s_.get("kms_copy") not in (None, step["kms_copy"]) for s_ in case["steps"][:i]) else ""))
             acc.case(nt_key=(step["sub"], size, kid_class(step["kid"]), step.get("hash"), step.get("kw"), route, i) if nt else None, classes=classes,
@@ -407,10 +415,10 @@ def step_s():
     kid = st.one_of(st.sampled_from(KIDS), st.sampled_from(CLI_KIDS), st.integers(0, 2**32 - 1), st.integers(10**7, 10**8 - 1))
     enc = st.fixed_dictionaries({"sub": st.just("encrypt"), "size": size, "salt": st.integers(0, 10**6), "kid": kid, "kid_spelling": st.sampled_from(["dec", "dec", "hex"]), "shape": st.sampled_from(["rand", "rand", "rand", "intel-hex", "cbor-envelope", "text"]), "hash": st.sampled_from(list(HASHES)),
                                  "kname": st.sampled_from(["FWENC", "FWENC", "fw_enc.v2", "a.b.c", "key 1", "FWENC_APPLICATION_GEN1"]),
-                                 "fifo": st.sampled_from([False] * 7 + [True]), "kms_copy": st.sampled_from([None, None, None, None, 0, 1])})
+                                 "fifo": st.sampled_from([False] * 7 + [True]), "inplace": st.sampled_from([False] * 5 + [True]), "kms_copy": st.sampled_from([None, None, None, None, 0, 1])})
     gen = st.fixed_dictionaries({"sub": st.just("geninfo"), "size": size, "salt": st.integers(0, 10**6), "kid": kid, "kid_spelling": st.sampled_from(["dec", "dec", "hex"]), "kw": st.sampled_from(["direct", "direct", "aes-kw-256"]),
                                  "eklen": st.sampled_from([0, 1, 24, 40]), "ek_first": st.sampled_from([None, None, 0xF6, 0xF6, 0xF7, 0x00, 0xA0, 0x40, 0x60, 0xFF]),
-                                 "fifo": st.sampled_from([False] * 7 + [True])}).map(lambda s: {**s, "eklen": max(s["eklen"], 24) if s["kw"] == "aes-kw-256" else s["eklen"]})
+                                 "fifo": st.sampled_from([False] * 7 + [True]), "inplace": st.sampled_from([False] * 4 + [True])}).map(lambda s: {**s, "eklen": max(s["eklen"], 24) if s["kw"] == "aes-kw-256" else s["eklen"]})
     return st.one_of(enc, enc, gen)
 
 
@@ -449,6 +457,14 @@ def run_shard(ctx, spec):
                 except Violation as v:
                     if not any(f["bucket"] == v.bucket for f in acc.failures):
                         acc.fail("grid", case, v.observed, v.expected, bucket=v.bucket)
+        for j, size in enumerate(HUGE_SIZES):
+            case = {"steps": [{"sub": "encrypt", "size": size, "salt": j, "kid": KIDS[j % len(KIDS)], "hash": list(HASHES)[j % len(HASHES)]}], "reuse": False, "route": "main" if j % 2 else "lib", "key": key}
+            try:
+                judge(case, acc, ctx)
+                acc.note("size>=8MiB")
+            except Violation as v:
+                if not any(f["bucket"] == v.bucket for f in acc.failures):
+                    acc.fail("grid", case, v.observed, v.expected, bucket=v.bucket)
         acc.info["grid_exhaustive"] = True
         return acc
     route = spec["route"]
@@ -494,7 +510,7 @@ def replay(ctx, check, case):
 def finalize(ctx, m, ev):
     c = m["counters"]
     ev["coverage"]["exhaustive_scope"] = "size x digest algorithm x key id grid (12 x 5 x 12, plus four sizes around 1 MiB x 5) enumerated completely; sequences sampled"
-    need = ["sub:encrypt", "sub:geninfo", "route:cli", "route:lib", "reused-output-dir", "size:0", "size:65537", "kw:aes-kw-256", "kw:direct", "key-name-with-dot", "key:all-hex-digits", "key:edge-blank-or-nul", "encryptor-reused:aes-kw-256->direct", "plaintext:intel-hex", "plaintext:cbor-envelope", "wrapped-key-first-byte:f6", "input-through-named-pipe", "kms-script-copy:after-another-copy"] + [f"hash:{h}" for h in HASHES]
+    need = ["sub:encrypt", "sub:geninfo", "route:cli", "route:lib", "reused-output-dir", "size:0", "size:65537", "kw:aes-kw-256", "kw:direct", "key-name-with-dot", "key:all-hex-digits", "key:edge-blank-or-nul", "encryptor-reused:aes-kw-256->direct", "plaintext:intel-hex", "plaintext:cbor-envelope", "wrapped-key-first-byte:f6", "input-through-named-pipe", "input-in-output-directory", "size>=8MiB", "kms-script-copy:after-another-copy"] + [f"hash:{h}" for h in HASHES]
     for n in need:
         if not c.get(n):
             raise boot.HarnessError(f"interesting class {n} is empty")
